@@ -234,3 +234,32 @@ def replay_file(path):
     bad = mod.replay(d)
     print("replay: %s %s" % (d["obligation"], "STILL FAILS" if bad else "does not fail any more"))
     return 1 if bad else 0
+
+
+def parallel_map(func, items, budget_s, procs=16, chunksize=4):
+    """run func over items in a process pool within a wall-clock budget.
+    returns (results list of (item, result), n_skipped). func must be a module-level function."""
+    import multiprocessing as mp
+    t0 = time.time()
+    out = []
+    items = list(items)
+    if not items:
+        return out, 0
+    ctx = mp.get_context("fork")
+    pool = ctx.Pool(min(procs, len(items)))
+    try:
+        it = pool.imap_unordered(func, items)
+        while True:
+            left = budget_s - (time.time() - t0)
+            if left <= 0:
+                break
+            try:
+                out.append(it.next(timeout=left))
+            except mp.TimeoutError:
+                break
+            except StopIteration:
+                break
+    finally:
+        pool.terminate()
+        pool.join()
+    return out, len(items) - len(out)
